@@ -110,5 +110,12 @@ class LimitedRateLimiter(RateLimiter):
             self.bucket = self.limit_bps
 
     def copy_tokens(self, other: RateLimiter):
+        # Settle what the replaced limiter accrued at its own rate. Carrying
+        # its `last_refill` over would credit the time since its last refill at
+        # the rate of the new limit
+        other.refill()
         self.add_tokens(other.bucket)
-        self.last_refill = other.last_refill
+        if other.limit_bps:
+            self.last_refill = time.monotonic()
+        else:
+            self.last_refill = other.last_refill
